@@ -58,3 +58,49 @@ bounded_check(name="c01-rename-binder", props=["C01"], fn=_bb.rename_case, domai
 bounded_check(name="c01-rename-projects", props=["C01"], fn=_bp.run_case, domain=_bp.domain, exhaustive=True,
               label="B3: 9 multi-module projects (from-import with same-named parameter, __init__/__call__ keywords, nested packages with two renames in one session, "
                     "multi-name global, variable named like its module, **kwargs, methods across modules, aliases, rf-strings): rename from every occurrence, run, compare output")
+
+# ---- CPython cross-check: the positional specification evaluated on the real ChangeCollector (spec functions computed natively) ----------
+def _xc_offs(s, k):
+    o = 0
+    for j in range(0, k):
+        o += (s[j][0] - (0 if j == 0 else s[j - 1][1])) + len(s[j][2])
+    return o
+
+
+def _xc_ordered(s):
+    return all(0 <= s[j][0] and (0 if j == 0 else s[j - 1][1]) <= s[j][0] <= s[j][1] for j in range(len(s)))
+
+
+def _xc_cc_domain(tier, seed):
+    import itertools
+    texts = ["", "a", "abc", "abcde"] if tier != "thorough" else ["", "a", "abc", "abcde", "abcdefg"]
+    reps = ["", "X", "YZ"]
+    for t in texts:
+        n = len(t)
+        spans = [(a, b) for a in range(n + 1) for b in range(a, n + 1)]
+        for r in range(0, 3):
+            for chosen in itertools.combinations(spans, r):
+                # keep only non-overlapping sets (the precondition), but hand them over in BOTH orders: get_changed sorts
+                ok = all(chosen[i][1] <= chosen[i + 1][0] for i in range(len(chosen) - 1))
+                if not ok:
+                    continue
+                for texts_ in itertools.product(reps, repeat=r):
+                    edits = [(a, b, x) for (a, b), x in zip(chosen, texts_)]
+                    yield (t, edits)
+                    if r == 2:
+                        yield (t, edits[::-1])
+
+
+def _xc_cc_build(case):
+    from rope.base import codeanalyze
+    t, edits = case
+    c = codeanalyze.ChangeCollector(t)
+    c.changes = list(edits)
+    return {"self": c}
+
+
+bounded_check(name="c01-get-changed-native", props=["C01", "C03", "C06", "C19"], contract="ChangeCollector.get_changed", build=_xc_cc_build, domain=_xc_cc_domain,
+              exhaustive=True, env={"sorted_key2": lambda s: sorted(s, key=lambda x: x[:2]), "offs": _xc_offs, "ordered": _xc_ordered,
+                                    "str_join": lambda sep, parts: sep.join(parts)},
+              label="CPython cross-check: get_changed's positional contract (length, gaps, replacements, tail) on the real collector: texts of <= 5 (thorough 7) "
+                    "characters x every set of <= 2 non-overlapping edits (both orders) x 3 replacement texts")
